@@ -66,11 +66,17 @@ def _run_one(args):
         repo = load(root, overlay)
         rep = Report(prop, 'quick', 0, root)
         ctx = Ctx(repo, rep, 'quick', 0)
+        broken = []
         for rid, fn in PROPERTIES[prop].RULES:
-            fn(ctx)
+            try:
+                fn(ctx)
+            except AnalysisError as e:
+                broken.append(str(e))
         viol = sorted({i.key() for i in rep.instances if not i.ok})
         new = [k for k in viol if k not in base_keys]
-        return v['id'], 'ran', '', new
+        if broken and not new:
+            return v['id'], 'analysis-error', '; '.join(broken), []
+        return v['id'], 'ran' if not broken else 'ran+analysis-error', '; '.join(broken), new
     except AnalysisError as e:
         return v['id'], 'analysis-error', str(e), []
     except SyntaxError as e:
@@ -150,7 +156,7 @@ def validate(ctx, prop):
             details.append({'variant': v['id'], 'kind': 'break', 'detected': hit, 'reported': new[:4]})
         else:
             summary['twin_total'] += 1
-            if status == 'ran' and not new:
+            if status == 'ran' and not new:  # (a twin that breaks a rule's anchors is noisy too)
                 summary['twin_silent'] += 1
             else:
                 summary['noisy_twins'].append('%s: %s %s' % (v['id'], status, (new or [msg])[:2]))
